@@ -99,6 +99,18 @@ func (c *Ctx) KnownMatch(class, reason string) bool {
 	return false
 }
 
+// KnownPeek is KnownMatch without counting (used while reducing a witness).
+func (c *Ctx) KnownPeek(class, reason string) bool {
+	c.mu.Lock()
+	defer c.mu.Unlock()
+	for _, k := range c.known {
+		if !k.Fixed && k.Matches(class, reason) {
+			return true
+		}
+	}
+	return false
+}
+
 // TakeReduceSlotFor limits reductions per violation class (2) and overall (VERIF_REDUCE or 12).
 func (c *Ctx) TakeReduceSlotFor(class string) bool {
 	c.mu.Lock()
@@ -224,7 +236,14 @@ func (c *Ctx) Each(n int, fn func(i int) (string, Outcome)) {
 			}
 		}()
 	}
+	only := -1 // VERIF_ONLY=<i>: debugging aid, run a single case of the list
+	if v, err := strconv.Atoi(os.Getenv("VERIF_ONLY")); err == nil {
+		only = v
+	}
 	for i := 0; i < n; i++ {
+		if only >= 0 && i != only {
+			continue
+		}
 		ch <- i
 	}
 	close(ch)
